@@ -322,4 +322,21 @@ example : (searchLoop (affine 10 50 2 3) 5 7 17 (79/2) 5 (0, 0) (0, 0)).1.map in
 example : (searchLoop (affine 10 50 2 3) 5 7 7 (79/2) 5 (3, 4) (3, 4)).1 = none := by
   decide +kernel
 
+/-- the interpolation weight of `block_bilinear_interpolator` on one axis (fractional part of the clipped position) lies
+in [0, 1) -/
+theorem blockBil_weight (i : Rat) (n : Nat) (hn : 1 ≤ n) : 0 ≤ (blockBil i n).2.2 ∧ (blockBil i n).2.2 ≤ 1 := by
+  have h1 : (1 : Rat) ≤ n := by exact_mod_cast hn
+  simp only [blockBil]
+  generalize hc : (if i < 0 then (0 : Rat) else if i > (n : Rat) - 1 then (n : Rat) - 1 else i) = c
+  have hc0 : 0 ≤ c := by
+    rw [← hc]; split
+    · exact le_refl _
+    · split
+      · linarith
+      · rename_i h _; exact not_lt.mp h
+  rw [pyTrunc_of_nonneg hc0]
+  have a := pyFloor_le c
+  have b := lt_pyFloor_add_one c
+  constructor <;> linarith
+
 end PyresampleModel.C09
